@@ -100,7 +100,11 @@ def run(R):
             n += 1
             ex = R.executor(F)
             try:
-                res2 = R.run_entry(ex, rec2)
+                # the frame property does not depend on the orientation: fix one to keep the drawing methods cheap
+                g0 = C.Geo(0, False)
+                im = C.display_init_mem(ex, F, rec2, 0, False)
+                d0 = im[("O", "*self")]
+                res2 = R.run_entry(ex, rec2, init_mem=im, assume=g0.i_init())
             except E.Undecided as e:
                 R.undecided("C10-frame", "%s|%s" % (cfg, rec2["pretty"]), str(e))
                 continue
@@ -111,11 +115,9 @@ def run(R):
                 d = C.deref_self(ex, o.state)
                 for fld in ("options", "madctl"):
                     cur = C.get_field(ex, o.state, d, C.DISPLAY, fld)
-                    if not (isinstance(cur, SymV) and cur.name == "*self." + fld):
-                        cur2 = cur
-                        ini = ex.mk_sym(cur.ty, "*self." + fld) if getattr(cur, "ty", None) is not None else None
-                        if ini is None or vkey(ex.expand_sym(ini) if isinstance(ini, SymV) else ini) != vkey(cur2):
-                            bad.append("%s=%r" % (fld, cur))
+                    ini = C.get_field(ex, o.state, d0, C.DISPLAY, fld)
+                    if vkey(cur) != vkey(ini) and repr(cur) != repr(ini):
+                        bad.append("%s=%r" % (fld, cur))
             R.ob("C10-frame", "%s|%s" % (cfg, rec2["pretty"]), not bad,
                  "a method other than set_orientation changes options / the cached address mode: %s" % bad[:2])
         R.floor("%s|framed methods" % cfg, n, 10)
